@@ -55,13 +55,14 @@ RULE = (
     "0-6 cancellations (backend.timeout, move_on_after, task.cancel from a timer callback or from a sibling task, "
     "iterator timeout, handler-yielded timeout, blocking timeout) d in 0..6 ticks after the receive started, so that arrival and "
     "cancellation tie often; coincidence bias re-times a pending chunk onto the loop's next timer (same iteration read-first / "
-    "next iteration); receiver pauses let the transport's internal buffer fill; 12 layers; oracle = returned bytes are a prefix "
+    "next iteration); receiver pauses let the transport's internal buffer fill; 16 harnesses over 7 layers (adapter, endpoint, client, client iterator, TLS transport with cipher-text records fed whole or cut in two, server, blocking endpoint); oracle = returned bytes are a prefix "
     "of the written stream at every return and equal it after an uncancelled drain to EOF"
 )
 COMPONENTS_REAL = [
     "easynetwork asyncio backend: StreamReaderBufferedProtocol, AsyncioTransportStreamSocketAdapter, CancelScope/timeout/move_on_after",
     "AsyncStreamEndpoint, AsyncTCPNetworkClient (+AsyncClientRecvIterator), AsyncTCPNetworkServer + lowlevel AsyncStreamServer request receivers",
     "StreamEndpoint + SocketStreamTransport (blocking)",
+    "AsyncTLSStreamTransport (+ OpenSSL on both ends; the peer is the reference vsim.tls.TLSPeer)",
     "StreamDataConsumer / BufferedStreamDataConsumer, StringLineSerializer, StructSerializer",
     "CPython asyncio selector event loop and _SelectorSocketTransport",
 ]
